@@ -227,7 +227,22 @@ func (p *PerClusterReporter) stats() *loadData {
 		inProgress := countData.loadInProgress()
 		errored := countData.loadAndClearErrored()
 		issued := countData.loadAndClearIssued()
-		if succeeded == 0 && inProgress == 0 && errored == 0 && issued == 0 {
+		// Server loads are drained before deciding whether the locality has
+		// anything to report: a load recorded after the request counters
+		// were reported must not be withheld until the next request.
+		loadStats := make(map[string]serverLoadData)
+		countData.serverLoads.Range(func(key, val any) bool {
+			sum, count := val.(*rpcLoadData).loadAndClear()
+			if count == 0 {
+				return true
+			}
+			loadStats[key.(string)] = serverLoadData{
+				count: count,
+				sum:   sum,
+			}
+			return true
+		})
+		if succeeded == 0 && inProgress == 0 && errored == 0 && issued == 0 && len(loadStats) == 0 {
 			return true
 		}
 
@@ -238,19 +253,8 @@ func (p *PerClusterReporter) stats() *loadData {
 				inProgress: inProgress,
 				issued:     issued,
 			},
-			loadStats: make(map[string]serverLoadData),
+			loadStats: loadStats,
 		}
-		countData.serverLoads.Range(func(key, val any) bool {
-			sum, count := val.(*rpcLoadData).loadAndClear()
-			if count == 0 {
-				return true
-			}
-			ld.loadStats[key.(string)] = serverLoadData{
-				count: count,
-				sum:   sum,
-			}
-			return true
-		})
 		sd.localityStats[key.(clients.Locality)] = ld
 		return true
 	})
